@@ -66,6 +66,24 @@ Tie / search (DESIGN.md §4.2, §5 C06):
        x sink in the quick tier; the (offence x context x sink) distribution is in the evidence
        (coverage.context_family).  Oracle: COMPILE_ERROR and the offence's diagnostic on the lines of the
        statement; every program without offence must compile.
+   (e) assignment to a const binding THROUGH an alias (gen_alias_family): array bindings (let / var local, parameter
+       with / without var, captured from the enclosing function or from its parameters) x path to the assignment
+       (element, for-in iterator also inside a closure / nested loop / branch, list-comprehension iterator, for-in
+       over a slice, slice element, slice / ?: / block bound to a var, element of ?: / if / match / if-let / block
+       results, bound to var, passed / piped to a var parameter, whole array) x element kind (int, record,
+       string, function); scalar bindings x (direct, closure, nested function, comprehension element, for-in /
+       while body, match arm, if-let branch, bound to var, var parameter, 3-part for); range iterators, range /
+       slice bound names, array dimension names, string characters, call results, tuple elements, function names.
+       The const variant must be rejected with `cannot assign ...` on its lines, the var twin must compile.
+   (f) wrong number / kinds of arguments through every call syntax (gen_call_family): too few / wrong kind at
+       first, middle, last position, surplus of the same / another kind / in front / two, x call `f(..)`, pipe with a
+       scalar left side, pipe with a tuple of 1-4 components (literal or let-bound) x callee (named function,
+       function value, function parameter, lambda, record field, array element, call result, module function,
+       record / enum-record constructor, module constructors; corpus/C06/lib/calls.nev) x 5 signatures.
+   (g) nested array literals (gen_array_family): rectangular 2-4 level literals (extents 0..3) and their one-row
+       mutants (row empty / shorter / longer / deeper / shallower / scalar / non-empty among empty rows at first,
+       middle, last position of every depth) x 9 sinks x element kind.
+       (e)-(g): distributions in coverage.alias_family / call_syntax_family / array_literal_family.
   Corpus: /verif/corpus/C06/*.nev (first line `# expect: accept` | `# expect: reject line=<n>
   key=<key>`), and the negative samples of <repo>/sample (`*.nev.err` with an `error:` line): each
   must be rejected at the first recorded line.
@@ -138,7 +156,7 @@ def drv_env():
     env = dict(os.environ)
     env["ASAN_OPTIONS"] = ASAN_ENV
     env["UBSAN_OPTIONS"] = "print_stacktrace=0:halt_on_error=0"
-    env["NEVER_PATH"] = os.path.join(common.REPO, "sample", "lib")
+    env["NEVER_PATH"] = os.path.join(common.REPO, "sample", "lib") + ":" + os.path.join(CORPUS, "lib")
     return env
 
 
@@ -1097,6 +1115,615 @@ def run_context_family(ctx, drv, quick):
                     "statement": "\n".join(c["src"].split("\n")[c["l0"] - 1:c["l1"]])}, limit=12)
 
 
+# ==========================================================================================
+# (e) (f) (g): assignment through aliases, arguments through every call syntax, array literals
+# ==========================================================================================
+def host_program(pre, host, params, ret, outer, body, tail="0"):
+    """body: list of (text, is_site).  host: func | nested | lambda; `outer` (declarations of the enclosing
+    function: captured names) forces nested / lambda.  -> (source, first site line, last site line)"""
+    s = Src()
+    s.add(pre)
+    site = [0, 0]
+
+    def put(ind):
+        for text, is_site in body:
+            l0 = s.next_line()
+            l1 = s.add("\n".join(ind + x for x in text.split("\n")))
+            if is_site:
+                site[0] = site[0] or l0
+                site[1] = l1
+        if tail:
+            s.add(ind + tail)
+
+    if host == "func" and not outer:
+        s.add("func host(%s) -> %s\n{" % (params, ret))
+        put("    ")
+        s.add("}")
+        s.add("func main() -> int\n{\n    0\n}")
+    else:
+        s.add("func main() -> int\n{")
+        for o in outer:
+            s.add("    " + o)
+        if host == "lambda":
+            s.add("    let host = let func (%s) -> %s\n    {" % (params, ret))
+        else:
+            s.add("    func host(%s) -> %s\n    {" % (params, ret))
+        put("        ")
+        s.add("    };\n    0\n}")
+    return s.text(), site[0], site[1]
+
+
+def judge_family(ctx, cases, res, keyfn, what, cap=12):
+    """shared oracle of the families below.  case: kind base|mutant, msg (regex of the diagnostics that name the
+    offence), l0..l1, op, ctx, cell (tuple counted in the evidence).  -> (verdicts, cells, accepted, faults)"""
+    verdicts, cells, accepted = collections.Counter(), collections.Counter(), collections.Counter()
+    faults = []
+    reported = 0
+    for c in cases:
+        r = res.get(c["id"])
+        if r is None or r["kind"] is None or r["san"]:
+            faults.append({"id": c["id"], "op": c["op"], "context": c["ctx"], "end": (r or {}).get("end"),
+                           "sanitizer": bool(r and r["san"]), "src": c["src"] if len(faults) < 2 else None})
+            verdicts["compiler-fault"] += 1
+            continue
+        if c["kind"] == "base":
+            if r["kind"] == "COMPILED":
+                verdicts["accepted-ok"] += 1
+            else:
+                verdicts["base-rejected"] += 1
+                ctx.correspondence_broken("%s-positive-rejected" % what,
+                                          {"id": c["id"], "op": c["op"], "context": c["ctx"], "errors": r["errs"][:4], "src": c["src"]})
+            continue
+        cells[c["cell"]] += 1
+        if r["kind"] != "COMPILE_ERROR":
+            verdicts["ACCEPTED"] += 1
+            accepted[" | ".join(str(x) for x in c["cell"])] += 1
+            before = len(ctx.violations)
+            if reported < cap:
+                ctx.violation(keyfn(c), "ill-typed program accepted by the compiler: %s, %s" % (c["op"], c["ctx"]),
+                              {"case": c["id"], "operator": c["op"], "context": c["ctx"],
+                               "expected": "COMPILE_ERROR /%s/ on lines %d..%d" % (c["msg"], c["l0"], c["l1"]),
+                               "observed": {"outcome": r["kind"], "diagnostics": r["errs"][:5]}, "source": c["src"]})
+                reported += len(ctx.violations) - before
+            continue
+        on_site = [m for (ln, m) in r["errs"] if c["l0"] <= ln <= c["l1"]]
+        if not on_site:
+            verdicts["WRONG-LINE"] += 1
+            before = len(ctx.violations)
+            if reported < cap:
+                ctx.violation("wrong-line:" + keyfn(c).split(":", 1)[1],
+                              "diagnostic not reported at the offending line: %s, %s" % (c["op"], c["ctx"]),
+                              {"case": c["id"], "operator": c["op"], "context": c["ctx"], "expected_lines": [c["l0"], c["l1"]],
+                               "observed": r["errs"][:5], "source": c["src"]})
+                reported += len(ctx.violations) - before
+            continue
+        if not any(re.search(c["msg"], m) for m in on_site):
+            verdicts["kind-differs"] += 1
+            ctx.correspondence_broken("%s-diagnostic-kind-differs" % what,
+                                      {"id": c["id"], "op": c["op"], "context": c["ctx"], "expected": c["msg"],
+                                       "errors": r["errs"][:4], "src": c["src"]})
+            continue
+        verdicts["rejected-ok"] += 1
+    return verdicts, cells, accepted, faults
+
+
+# ---- (e) assignment to a const binding through every aliasing construct ------------------------------
+AL_PRE = """record R { x : int; }
+record RA { m[D] : int; }
+enum E { A { x : int; }, B }
+func inc(a : int) -> int { a + 1 }
+func dec(a : int) -> int { a - 1 }
+func fv(var a : int) -> int { a = a + 1; a }
+func set_int(var z[D] : int) -> int { z[0] = 5; 0 }
+func set_rec(var z[D] : R) -> int { z[0] = R(9); 0 }
+func set_str(var z[D] : string) -> int { z[0] = "z"; 0 }
+func set_fun(var z[D] : (int) -> int) -> int { z[0] = dec; 0 }
+func garr() -> [_] : int { [ 1, 2, 3 ] : int }"""
+AL_MSG = (r"^cannot assign to (const|temp)|^cannot assign (const|temp) .* to var|^function call type mismatch|"
+          r"^passing \S+ expression to variable param")
+# element kind -> (type, array literal, array parameter declaration, a value, another literal)
+AL_ELEMS = {
+    "int": ("int", "[ 1, 2, 3 ] : int", "5", "[ 7, 8, 9 ] : int"),
+    "rec": ("R", "[ R(1), R(2), R(3) ] : R", "R(9)", "[ R(7), R(8), R(9) ] : R"),
+    "str": ("string", '[ "a", "b", "c" ] : string', '"z"', '[ "x", "y", "z" ] : string'),
+    "fun": ("(int) -> int", "[ inc, inc, inc ] : (int) -> int", "dec", "[ dec, dec, dec ] : (int) -> int"),
+}
+# path from an array binding to an assignment: statements over ARR (the array), VAL (a value), EL (element kind),
+# LIT (another array)
+AL_ARRAY_PATHS = [
+    ("element", ["ARR[0] = VAL;"]),
+    ("forin-iterator", ["for (e in ARR) { e = VAL };"]),
+    ("forin-iterator-in-closure", ["for (e in ARR) { let g = let func () -> int { e = VAL; 0 }; g() };"]),
+    ("forin-iterator-nested-loop", ["for (e in ARR) { for (f in ARR) { f = VAL } };"]),
+    ("forin-iterator-in-branch", ["for (e in ARR) { if (1 < 2) { e = VAL; 0 } else { 0 } };"]),
+    ("listcomp-iterator", ["let w = [ { e = VAL; 0 } | e in ARR ] : int;"]),
+    ("slice-forin", ["for (e in ARR[0 .. 1]) { e = VAL };"]),
+    ("slice-element", ["ARR[0 .. 1][0] = VAL;"]),
+    ("slice-bound-to-var", ["var s = ARR[0 .. 1];", "s[0] = VAL;"]),
+    ("bound-to-var", ["var b = ARR;", "b[0] = VAL;"]),
+    ("passed-to-var-param", ["set_EL(ARR);"]),
+    ("piped-to-var-param", ["ARR |> set_EL();"]),
+    ("cond-element", ["(1 < 2 ? ARR : ARR)[0] = VAL;"]),
+    ("cond-bound-to-var", ["var b = (1 < 2 ? ARR : ARR);", "b[0] = VAL;"]),
+    ("if-element", ["(if (1 < 2) { ARR } else { ARR })[0] = VAL;"]),
+    ("match-arm-element", ["(match E::B { E::A(y) -> ARR; E::B -> ARR; })[0] = VAL;"]),
+    ("iflet-branch-element", ["(if let (E::A(y) = E::B) { ARR } else { ARR })[0] = VAL;"]),
+    ("block-element", ["{ ARR }[0] = VAL;"]),
+    ("block-bound-to-var", ["var b = { ARR };", "b[0] = VAL;"]),
+    ("whole-array", ["ARR = LIT;"]),
+]
+AL_SCALARS = {
+    "int": ("int", "1", "5"),
+    "rec": ("R", "R(1)", "R(9)"),
+    "str": ("string", '"a"', '"z"'),
+    "fun": ("(int) -> int", "inc", "dec"),
+}
+AL_SCALAR_PATHS = [
+    ("direct", ["KEY = VAL;"], None),
+    ("in-closure", ["let g = let func () -> int { KEY = VAL; 0 };", "g();"], None),
+    ("in-nested-function", ["func g() -> int { KEY = VAL; 0 };", "g();"], None),
+    ("in-listcomp-element", ["let w = [ { KEY = VAL; x } | x in [ 1, 2 ] : int ] : int;"], None),
+    ("in-forin-body", ["for (x in [ 0 .. 2 ]) { KEY = VAL };"], None),
+    ("in-while-body", ["while (1 > 2) { KEY = VAL; 0 };"], None),
+    ("in-match-arm", ["match E::B { E::A(y) -> { KEY = VAL; 0 }; E::B -> 0; };"], None),
+    ("in-iflet-branch", ["if let (E::A(y) = E::B) { KEY = VAL; 0 } else { 0 };"], None),
+    ("bound-to-var", ["var q = KEY;", "q = VAL;"], None),
+    ("passed-to-var-param", ["fv(KEY);"], "int"),
+    ("for3-init-and-step", ["for (KEY = 0; KEY < 2; KEY = KEY + 1) { 0 };"], "int"),
+]
+# constructs whose verdict does not follow the const / var scheme: (name, parameters, declarations, statements,
+# verdict).  `rule:` entries pin what the unchanged tree was measured to do for record fields (always
+# assignable, also through match / if-let binders): both twins must compile.
+AL_SPECIAL = [
+    ("range-literal-iterator", "", [], ["for (e in [ 0 .. 3 ]) { e = 5 };"], "reject"),
+    ("range-let-iterator", "", ["let rr = [ 0 .. 3 ];"], ["for (e in rr) { e = 5 };"], "reject"),
+    ("range-var-iterator", "", ["var rr = [ 0 .. 3 ];"], ["for (e in rr) { e = 5 };"], "reject"),
+    ("range-param-iterator", "[f .. t] : range", [], ["for (e in [ f .. t ]) { e = 5 };"], "reject"),
+    ("range-iterator-read", "", ["var v0 = 0;"], ["for (e in [ 0 .. 3 ]) { v0 = e };"], "accept"),
+    ("range-iterator-in-closure", "", [], ["for (e in [ 0 .. 3 ]) { let g = let func () -> int { e = 5; 0 }; g() };"], "reject"),
+    ("range-bound-names", "[f .. t] : range", [], ["f = 5;"], "reject"),
+    ("range-bound-names-upper", "[f .. t] : range", [], ["t = 5;"], "reject"),
+    ("range-bound-names-read", "[f .. t] : range", [], ["let y = f + t;"], "accept"),
+    ("slice-bound-names", "z[f .. t] : int", [], ["f = 5;"], "reject"),
+    ("slice-bound-names-read", "z[f .. t] : int", [], ["let y = f + t;"], "accept"),
+    ("tuple-element-of-let", "", ["let tp = (1, 2) : (int, int);"], ["tp[0] = 5;"], "reject"),
+    ("tuple-element-of-var", "", ["var tp = (1, 2) : (int, int);"], ["tp[0] = 5;"], "accept"),
+    ("tuple-element-of-param", "tp : (int, int)", [], ["tp[0] = 5;"], "reject"),
+    ("forin-over-literal", "", [], ["for (e in [ 1, 2 ] : int) { e = 5 };"], "reject"),
+    ("cond-of-scalars", "", ["let k = 1;"], ["(1 < 2 ? k : k) = 5;"], "reject"),
+    ("string-char-let", "", ['let s = "abc";'], ["s[0] = 'x';"], "reject"),
+    ("string-char-var", "", ['var s = "abc";'], ["s[0] = 'x';"], "reject"),
+    ("string-char-read", "", ['let s = "abc";'], ["let c = s[0];"], "accept"),
+    ("call-result-element", "", [], ["garr()[0] = 5;"], "reject"),
+    ("call-result-forin", "", [], ["for (e in garr()) { e = 5 };"], "reject"),
+    ("call-result-read", "", [], ["let y = garr()[0];"], "accept"),
+    ("array-dims-name", "a[D] : int", [], ["D = 5;"], "reject"),
+    ("function-name", "", [], ["inc = dec;"], "reject"),
+    ("own-function-name", "", [], ["host = host;"], "reject"),
+    ("literal", "", [], ["5 = 6;"], "reject"),
+    ("enum-value", "", [], ["E::B = E::B;"], "reject"),
+    ("match-binder-of-let", "", ["let m = E::A(1);"], ["match m { E::A(x) -> { x = 5; x }; E::B -> 0; };"], "rule:accept"),
+    ("match-binder-of-var", "", ["var m = E::A(1);"], ["match m { E::A(x) -> { x = 5; x }; E::B -> 0; };"], "accept"),
+    ("match-binder-of-param", "m : E", [], ["match m { E::A(x) -> { x = 5; x }; E::B -> 0; };"], "rule:accept"),
+    ("iflet-binder-of-let", "", ["let m = E::A(1);"], ["if let (E::A(x) = m) { x = 5; x } else { 0 };"], "rule:accept"),
+    ("iflet-binder-of-var", "", ["var m = E::A(1);"], ["if let (E::A(x) = m) { x = 5; x } else { 0 };"], "accept"),
+    ("record-field-of-let", "", ["let r = R(1);"], ["r.x = 5;"], "rule:accept"),
+    ("record-field-of-var", "", ["var r = R(1);"], ["r.x = 5;"], "accept"),
+    ("record-field-of-param", "r : R", [], ["r.x = 5;"], "rule:accept"),
+    ("record-field-of-var-param", "var r : R", [], ["r.x = 5;"], "accept"),
+    ("record-array-field-element-of-let", "", ["let r = RA([ 1, 2 ] : int);"], ["r.m[0] = 5;"], "rule:accept"),
+    ("record-array-field-forin-of-let", "", ["let r = RA([ 1, 2 ] : int);"], ["for (e in r.m) { e = 5 };"], "rule:accept"),
+    ("field-of-let-array-element", "", ["let a = [ R(1), R(2) ] : R;"], ["a[0].x = 5;"], "rule:accept"),
+    ("field-of-forin-iterator-of-let-array", "", ["let a = [ R(1), R(2) ] : R;"], ["for (e in a) { e.x = 5 };"], "rule:accept"),
+]
+AL_HOSTS = ["func", "nested", "lambda"]
+
+
+def al_subst(stmts, **kw):
+    out = []
+    for st in stmts:
+        st = st.replace("set_EL", "set_" + kw.get("EL", "EL"))
+        st = re.sub(r"\b(LIT|ARR|VAL|KEY)\b", lambda m: kw.get(m.group(1), m.group(1)), st)
+        out.append(st)
+    return out
+
+
+def gen_alias_family(rng, quick):
+    cases = []
+    n = [0]
+
+    def add(kind, construct, source, el, host, params, outer, decls, stmts, variant):
+        body = [(d, False) for d in decls] + [(st, True) for st in stmts]
+        src, l0, l1 = host_program(AL_PRE, host, params, "int", outer, body)
+        n[0] += 1
+        c = tcase("al%d" % n[0], "al", kind, "AssignConst:" + construct, "%s|%s|%s|%s" % (source, el, host, variant),
+                  "reject" if kind == "mutant" else "accept", src, line=l0, msg=AL_MSG,
+                  extra={"cell": (construct, source), "construct": construct})
+        c["l1"] = l1
+        cases.append(c)
+
+    def sources(name, decl_const, decl_var, param_const, param_var):
+        """-> [(source, const?, params, outer, decls, hosts)]"""
+        return [("let-local", True, "", [], [decl_const], AL_HOSTS), ("var-local", False, "", [], [decl_var], AL_HOSTS),
+                ("parameter", True, param_const, [], [], AL_HOSTS), ("var-parameter", False, param_var, [], [], AL_HOSTS),
+                ("captured-let", True, "", [decl_const], [], AL_HOSTS[1:]), ("captured-var", False, "", [decl_var], [], AL_HOSTS[1:]),
+                ("captured-parameter", True, "", ["func mid(%s) -> int\n    {" % param_const], [], ["mid"]),
+                ("captured-var-parameter", False, "", ["func mid(%s) -> int\n    {" % param_var], [], ["mid"])]
+
+    def emit(construct, el, srcs, stmts):
+        for (source, const, params, outer, decls, hosts) in srcs:
+            for host in hosts:
+                if host == "mid":
+                    # the binding is a parameter of an enclosing function, the assignment sits in a closure inside it
+                    body = [(d, False) for d in decls] + [(st, True) for st in stmts]
+                    s = Src()
+                    s.add(AL_PRE)
+                    s.add("func main() -> int\n{")
+                    s.add("    " + outer[0])
+                    s.add("        let host = let func () -> int\n        {")
+                    l0 = s.next_line()
+                    l1 = l0
+                    for st in stmts:
+                        l1 = s.add("            " + st)
+                    s.add("            0\n        };\n        0\n    };\n    0\n}")
+                    n[0] += 1
+                    c = tcase("al%d" % n[0], "al", "mutant" if const else "base", "AssignConst:" + construct,
+                              "%s|%s|closure-in-function|%s" % (source, el, "const" if const else "var"),
+                              "reject" if const else "accept", s.text(), line=l0, msg=AL_MSG,
+                              extra={"cell": (construct, source), "construct": construct})
+                    c["l1"] = l1
+                    cases.append(c)
+                else:
+                    add("mutant" if const else "base", construct, source, el, host, params, outer, decls, stmts,
+                        "const" if const else "var")
+
+    for el, (ty, lit, val, lit2) in AL_ELEMS.items():
+        srcs = sources("a", "let a = %s;" % lit, "var a = %s;" % lit, "a[D] : %s" % ty, "var a[D] : %s" % ty)
+        for pname, stmts in AL_ARRAY_PATHS:
+            emit("array:" + pname, el, srcs, al_subst(stmts, ARR="a", VAL=val, EL=el, LIT=lit2))
+    for el, (ty, init, val) in AL_SCALARS.items():
+        pdecl = "k(int) -> int" if el == "fun" else "k : %s" % ty
+        srcs = sources("k", "let k = %s;" % init, "var k = %s;" % init, pdecl, "var " + pdecl)
+        for pname, stmts, only in AL_SCALAR_PATHS:
+            if only and only != el:
+                continue
+            emit("scalar:" + pname, el, srcs, al_subst(stmts, KEY="k", VAL=val))
+    for name, params, decls, stmts, verdict in AL_SPECIAL:
+        for host in AL_HOSTS:
+            if name == "own-function-name" and host == "lambda":
+                continue
+            add("mutant" if verdict == "reject" else "base", name, verdict, "-", host, params, [], decls, stmts, verdict)
+    return cases
+
+
+# ---- (f) wrong number / kinds of arguments through every call syntax ------------------------------------
+CS_VALUES = {"int": ["1", "2", "3", "4"], "bool": ["true", "false", "true", "false"], "string": ['"s"', '"t"', '"u"', '"w"']}
+CS_WRONG = {"int": ["true", '"s"'], "bool": ["1", '"s"'], "string": ["1", "true"]}
+CS_SIGS = {"i": ["int"], "ii": ["int", "int"], "iii": ["int", "int", "int"], "ibs": ["int", "bool", "string"],
+           "sib": ["string", "int", "bool"]}
+CS_MSG = r"^function call type mismatch|^record create type mismatch|^enum record create type mismatch|type mismatch"
+
+
+def cs_pre():
+    out = ["use calls"]
+    for sg, tys in CS_SIGS.items():
+        fl = " ".join("p%d : %s;" % (i, t) for i, t in enumerate(tys))
+        out.append("record R_%s { %s }" % (sg, fl))
+        out.append("record RF_%s { f(%s) -> int; }" % (sg, ", ".join(tys)))
+    for sg, tys in CS_SIGS.items():
+        fl = " ".join("p%d : %s;" % (i, t) for i, t in enumerate(tys))
+        out.append("enum E_%s { A { %s }, B }" % (sg, fl))
+    for sg, tys in CS_SIGS.items():
+        ps = ", ".join("p%d : %s" % (i, t) for i, t in enumerate(tys))
+        out.append("func f_%s(%s) -> int { 0 }" % (sg, ps))
+        out.append("func mk_%s() -> (%s) -> int { f_%s }" % (sg, ", ".join(tys), sg))
+    return "\n".join(out)
+
+
+# callee form -> (expression of the callee, declarations it needs in the body, is a constructor, signatures)
+def cs_callees(sg):
+    tys = CS_SIGS[sg]
+    ps = ", ".join("p%d : %s" % (i, t) for i, t in enumerate(tys))
+    c = [("named-function", "f_%s" % sg, [], False),
+         ("function-value", "g", ["let g = f_%s;" % sg], False),
+         ("function-parameter", "h", [], False),
+         ("lambda", "let func (%s) -> int { 0 }" % ps, [], False),
+         ("record-field", "rf.f", ["let rf = RF_%s(f_%s);" % (sg, sg)], False),
+         ("array-element", "fa[0]", ["let fa = [ f_%s, f_%s ] : (%s) -> int;" % (sg, sg, ", ".join(tys))], False),
+         ("call-result", "mk_%s()" % sg, [], False),
+         ("record-constructor", "R_%s" % sg, [], True),
+         ("enum-record-constructor", "E_%s::A" % sg, [], True)]
+    if sg == "iii":
+        c += [("module-function", "calls.f3", [], False), ("module-record-constructor", "calls.MR", [], True),
+              ("module-enum-record-constructor", "calls.ME::A", [], True)]
+    if sg == "ibs":
+        c += [("module-function", "calls.fm", [], False)]
+    return c
+
+
+def cs_offences(tys, rng):
+    """-> [(offence, position, [(type written, text)])]: argument lists that do not fit `tys`"""
+    base = [(t, CS_VALUES[t][i]) for i, t in enumerate(tys)]
+    n = len(tys)
+    out = []
+    for i in sorted({0, n // 2, n - 1}):
+        pos = "first" if i == 0 else ("last" if i == n - 1 else "middle")
+        if n == 1:
+            pos = "only"
+        out.append(("too-few", pos, base[:i] + base[i + 1:]))
+        w = CS_WRONG[tys[i]][rng.randrange(2)]
+        wt = "bool" if w in ("true", "false") else ("string" if w.startswith('"') else "int")
+        out.append(("wrong-kind", pos, base[:i] + [(wt, w)] + base[i + 1:]))
+    out.append(("too-many", "surplus-of-last-kind", base + [(tys[-1], CS_VALUES[tys[-1]][3])]))
+    other = [t for t in ("string", "bool", "int") if t != tys[-1]][0]
+    out.append(("too-many", "surplus-of-other-kind", base + [(other, CS_VALUES[other][3])]))
+    out.append(("too-many", "surplus-first", [(tys[0], CS_VALUES[tys[0]][3])] + base))
+    out.append(("too-many", "two-surplus", base + [(tys[-1], CS_VALUES[tys[-1]][3]), (tys[0], CS_VALUES[tys[0]][3])]))
+    return base, out
+
+
+def cs_call(syntax, callee, args, decls):
+    """-> (call expression, extra declarations) or None when the syntax cannot express the argument list"""
+    tx = [a[1] for a in args]
+    if callee.startswith("let func"):
+        callee_e = "(" + callee + ")"
+    else:
+        callee_e = callee
+    if syntax == "call":
+        return "%s(%s)" % (callee_e, ", ".join(tx)), []
+    if syntax == "pipe-scalar":
+        if not args:
+            return None
+        return "%s |> %s(%s)" % (tx[0], callee if callee.startswith("let func") else callee_e, ", ".join(tx[1:])), []
+    m = re.match(r"pipe-tuple(-bound)?-(\d)", syntax)
+    k = int(m.group(2))
+    if len(args) < k:
+        return None
+    tup = "(%s%s) : (%s)" % (", ".join(tx[:k]), "," if k == 1 else "", ", ".join(a[0] for a in args[:k]))
+    rest = ", ".join(tx[k:])
+    ce = callee if callee.startswith("let func") else callee_e
+    if m.group(1):
+        return "tp |> %s(%s)" % (ce, rest), ["let tp = %s;" % tup]
+    return "%s |> %s(%s)" % (tup, ce, rest), []
+
+
+CS_SYNTAXES = ["call", "pipe-scalar", "pipe-tuple-1", "pipe-tuple-2", "pipe-tuple-3", "pipe-tuple-bound-2", "pipe-tuple-4"]
+
+
+def gen_call_family(rng, quick):
+    pre = cs_pre()
+    cases = []
+    n = [0]
+
+    def add(kind, sg, cname, syntax, offence, pos, expr, decls, hparam):
+        body = [(d, False) for d in decls] + [("let w = %s;" % expr, True)]
+        host = AL_HOSTS[n[0] % 3] if quick else rng.choice(AL_HOSTS)
+        src, l0, l1 = host_program(pre, host, hparam, "int", [], body)
+        n[0] += 1
+        c = tcase("cs%d" % n[0], "cs", kind, "Args:%s:%s" % (offence, pos), "%s|%s|%s|%s" % (syntax, cname, sg, host),
+                  "reject" if kind == "mutant" else "accept", src, line=l0, msg=CS_MSG,
+                  extra={"cell": (offence, syntax, cname), "offence": offence, "syntax": syntax})
+        c["l1"] = l1
+        cases.append(c)
+
+    for sg, tys in CS_SIGS.items():
+        base, offs = cs_offences(tys, rng)
+        for cname, callee, decls, ctor in cs_callees(sg):
+            hparam = "h(%s) -> int" % ", ".join(tys) if cname == "function-parameter" else ""
+            for syntax in CS_SYNTAXES:
+                if ctor and syntax != "call":
+                    continue          # a constructor cannot be the right side of a pipe
+                r = cs_call(syntax, callee, base, decls)
+                if r is not None and not (syntax.startswith("pipe-tuple") and int(syntax[-1]) > len(tys)):
+                    add("base", sg, cname, syntax, "-", "-", r[0], decls + r[1], hparam)
+                for offence, pos, args in offs:
+                    r = cs_call(syntax, callee, args, decls)
+                    if r is None:
+                        continue
+                    if quick and syntax.startswith("pipe-tuple") and sg in ("ii", "sib") and rng.random() < 0.5:
+                        continue
+                    add("mutant", sg, cname, syntax, offence, pos, r[0], decls + r[1], hparam)
+    return cases
+
+
+# ---- (g) nested array literals: rows of one depth must have one length ------------------------------------
+AR_MSG = r"^array is not well formed|^incorrect types in array|^incorrect dim|^syntax error"
+
+
+def ar_text(t, leaf):
+    if isinstance(t, list):
+        return "[ " + ", ".join(ar_text(x, leaf) for x in t) + " ]" if t else "[ ]"
+    return leaf(t)
+
+
+def ar_rect(dims, counter):
+    if not dims:
+        counter[0] += 1
+        return counter[0]
+    return [ar_rect(dims[1:], counter) for _ in range(dims[0])]
+
+
+def ar_rows(t, depth, path=()):
+    """paths of the sub-lists at nesting depth `depth` (1 = rows of the outermost list)"""
+    if depth == 0:
+        return [path]
+    out = []
+    if isinstance(t, list):
+        for i, x in enumerate(t):
+            out += ar_rows(x, depth - 1, path + (i,))
+    return out
+
+
+def ar_get(t, path):
+    for i in path:
+        t = t[i]
+    return t
+
+
+def ar_set(t, path, v):
+    import copy
+    t = copy.deepcopy(t)
+    if not path:
+        return v
+    cur = t
+    for i in path[:-1]:
+        cur = cur[i]
+    cur[path[-1]] = v
+    return t
+
+
+def ar_mutants(lit, dims, rng):
+    """-> [(mutation, position, literal)]: one row made different from its siblings"""
+    out = []
+    for depth in range(1, len(dims)):
+        rows = ar_rows(lit, depth)
+        if len(rows) < 2:
+            continue
+        picks = sorted({0, len(rows) // 2, len(rows) - 1})
+        for pi in picks:
+            pos = "first" if pi == 0 else ("last" if pi == len(rows) - 1 else "middle")
+            pos = "%s-row-of-depth-%d" % (pos, depth)
+            row = ar_get(lit, rows[pi])
+            if len(row) > 0:
+                out.append(("row-empty", pos, ar_set(lit, rows[pi], [])))
+                if len(row) > 1:
+                    out.append(("row-shorter", pos, ar_set(lit, rows[pi], row[:-1])))
+                out.append(("row-longer", pos, ar_set(lit, rows[pi], row + [row[-1]])))
+                out.append(("row-deeper", pos, ar_set(lit, rows[pi], [[x] if not isinstance(x, list) else [x] for x in row])))
+                if isinstance(row[0], list) and row[0]:
+                    out.append(("row-shallower", pos, ar_set(lit, rows[pi], [x[0] for x in row])))
+                out.append(("scalar-for-row", pos, ar_set(lit, rows[pi], 77)))
+            else:
+                out.append(("row-non-empty-among-empty", pos, ar_set(lit, rows[pi], [5] if depth == len(dims) - 1 else [[5]])))
+    return out
+
+
+AR_SINKS = ["let", "var", "discard", "pass", "return", "index", "assign", "record-field", "listcomp-element"]
+
+
+def ar_statement(text, ndim, sink, leafty):
+    """-> (host return type, body [(text, is_site)], tail)"""
+    lit = "%s : %s" % (text, leafty)
+    dims = ", ".join("_" for _ in range(ndim))
+    z = ", ".join("D%d" % i for i in range(ndim))
+    zero = ", ".join("0" for _ in range(ndim))
+    if sink == "let":
+        return "int", [("let w = %s;" % lit, True)], "0"
+    if sink == "var":
+        return "int", [("var w = %s;" % lit, True)], "0"
+    if sink == "discard":
+        return "int", [("%s;" % lit, True)], "0"
+    if sink == "pass":
+        return "int", [("func sink(z[%s] : %s) -> int { 0 };" % (z, leafty), False), ("sink(%s);" % lit, True)], "0"
+    if sink == "return":
+        return "[%s] : %s" % (dims, leafty), [(lit, True)], None
+    if sink == "index":
+        return "int", [("let w = (%s)[%s];" % (lit, zero), True)], "0"
+    if sink == "assign":
+        return "int", [("var w = {[ %s ]} : %s;" % (", ".join("1" for _ in range(ndim)), leafty), False), ("w = %s;" % lit, True)], "0"
+    if sink == "record-field":
+        return "int", [("let w = RM%d(%s);" % (ndim, lit), True)], "0"
+    return "int", [("func sink(z[%s] : %s) -> int { 0 };" % (z, leafty), False),
+                   ("let w = [ sink(%s) | x in [ 1, 2 ] : int ] : int;" % lit, True)], "0"
+
+
+def gen_array_family(rng, quick):
+    cases = []
+    n = [0]
+    pre = "\n".join("record RM%d { m[%s] : int; }" % (k, ", ".join("D%d" % i for i in range(k))) for k in (2, 3, 4))
+    leaves = {"int": lambda v: str(v), "string": lambda v: '"s%d"' % v}
+    shapes = [(a, b) for a in range(1, 4) for b in range(0, 4)] + \
+             [(a, b, c) for a in range(1, 3) for b in range(1, 4) for c in range(0, 3)] + [(2, 2, 2, 2)]
+
+    def add(kind, mutation, pos, lit, ndim, sink, leafty, shape):
+        if leafty == "string" and sink == "record-field":
+            sink = "let"
+        ret, body, tail = ar_statement(ar_text(lit, leaves[leafty]), ndim, sink, leafty)
+        host = AL_HOSTS[n[0] % 3]
+        src, l0, l1 = host_program(pre, host, "", ret, [], body, tail=tail)
+        n[0] += 1
+        c = tcase("ar%d" % n[0], "ar", kind, "ArrayLiteral:%s:%s" % (mutation, pos),
+                  "%s|%s|%s|%s" % ("x".join(map(str, shape)), sink, leafty, host),
+                  "reject" if kind == "mutant" else "accept", src, line=l0, msg=AR_MSG,
+                  extra={"cell": (mutation, pos.split("-row-")[0], "%dD" % ndim, sink), "mutation": mutation})
+        c["l1"] = l1
+        cases.append(c)
+
+    for shape in shapes:
+        lit = ar_rect(list(shape), [0])
+        ndim = len(shape)
+        for sink in (AR_SINKS if not quick else [AR_SINKS[(n[0] + i) % len(AR_SINKS)] for i in range(3)]):
+            add("base", "-", "-", lit, ndim, sink, "int" if rng.random() < 0.8 else "string", shape)
+        if ndim > 3 and quick:
+            muts = ar_mutants(lit, shape, rng)[::3]
+        else:
+            muts = ar_mutants(lit, shape, rng)
+        for mutation, pos, m in muts:
+            sinks = AR_SINKS if not quick else [rng.choice(AR_SINKS), "let"]
+            for sink in dict.fromkeys(sinks):
+                add("mutant", mutation, pos, m, ndim, sink, "int" if rng.random() < 0.8 else "string", shape)
+    # arrays OF arrays are not nested literals: rows of different lengths are well typed there
+    for rows in ([2, 1], [0, 3], [1, 2, 3]):
+        text = "[ " + ", ".join("[ %s ] : int" % ", ".join(str(i) for i in range(r)) for r in rows) + " ]"
+        src, l0, l1 = host_program(pre, "func", "", "int", [], [("let w = %s : [_] : int;" % text, True)])
+        n[0] += 1
+        cases.append(tcase("ar%d" % n[0], "ar", "base", "-", "array-of-arrays|let|int|func", "accept", src, line=l0, msg=AR_MSG,
+                           extra={"cell": ("-",), "mutation": "-"}))
+    return cases
+
+
+def run_round3_families(ctx, drv, quick):
+    rng = random.Random((ctx.seed << 12) ^ 0xC063)
+    fams = [("alias", gen_alias_family(rng, quick),
+             lambda c: "accepted:AssignConst:%s" % c["construct"].split(":")[-1]),
+            ("call_syntax", gen_call_family(rng, False),       # cheap: the complete grids in both tiers
+             lambda c: "accepted:Args:%s:%s" % (c["offence"], c["syntax"])),
+            ("array_literal", gen_array_family(rng, False),
+             lambda c: "accepted:ArrayLiteral:%s" % c["mutation"])]
+    allcases = [c for _n, cs, _k in fams for c in cs]
+    res = compile_all(ctx, drv, allcases, "r3")
+    for name, cases, keyfn in fams:
+        verdicts, cells, accepted, faults = judge_family(ctx, cases, res, keyfn, name.replace("_", "-") + "-family")
+        ctx.count(evaluations=sum(verdicts.values()), nontrivial=len(cells))
+        table, table2 = collections.Counter(), collections.Counter()
+        for cell, k in cells.items():
+            table[" | ".join(str(x) for x in cell[:2])] += k
+            if len(cell) > 2:
+                table2["%s | %s" % (cell[0], cell[-1])] += k       # offence x callee form / mutation x sink
+        ctx.coverage[name + "_family"] = {
+            "verdicts": dict(verdicts), "distinct_cells": len(cells),
+            "offence_x_construct": dict(sorted(table.items())),
+            "offence_x_callee_or_sink": dict(sorted(table2.items())),
+            "accepted_cells": dict(sorted(accepted.items())[:40]),
+            "compiler_faults": [{k: v for k, v in f.items() if v is not None} for f in faults[:3]], "compiler_fault_count": len(faults)}
+        muts = [c for c in cases if c["kind"] == "mutant"]
+        for c in muts[3:len(muts):max(1, len(muts) // 2)][:2]:
+            ctx.sample({"family": name, "case": c["id"], "offence": c["op"], "construct": c["ctx"], "site_lines": [c["l0"], c["l1"]],
+                        "compiler": (res.get(c["id"]) or {}).get("errs", [])[:2],
+                        "statement": "\n".join(c["src"].split("\n")[c["l0"] - 1:c["l1"]])}, limit=18)
+    ctx.coverage["alias_family"]["rule"] = (
+        "assignment to a const binding reached through an alias: (array binding let/var local, parameter with/without var, "
+        "captured from the enclosing function or its parameters) x (element, for-in iterator [in closure / nested loop / branch], "
+        "list-comprehension iterator, slice for-in / element / bound to var, bound to var, passed to a var parameter, whole array) x "
+        "element kind (int, record, string, function); the same for scalar bindings (direct, closure, nested function, "
+        "comprehension, for-in / while body, match arm, if-let branch, bound to var, var parameter, 3-part for); range iterators, "
+        "range bound names, string characters, call results, array dimension names, function names: always const.  Every const "
+        "variant must be rejected with a `cannot assign ...` diagnostic on its lines, every var twin must compile.  `rule:accept` "
+        "cells pin the measured rule that record fields (also through match / if-let binders) are assignable whatever the "
+        "record's binding is.")
+    ctx.coverage["call_syntax_family"]["rule"] = (
+        "argument lists that do not fit (too few at first/middle/last, wrong kind at first/middle/last, surplus of the last kind / "
+        "another kind / in front / two) x call syntax (call, pipe with scalar left side, pipe with a tuple of 1-4 components "
+        "literal or let-bound) x callee (named function, function value, function parameter, lambda, record field, array "
+        "element, call result, module function, record / enum-record constructor, module constructors) x 5 signatures; the "
+        "fitting list must compile, every other must be rejected with a type-mismatch diagnostic on its line")
+    ctx.coverage["array_literal_family"]["rule"] = (
+        "rectangular nested literals of 2-4 levels (every extent 0..3, all-empty rows included: accepted) and their one-row "
+        "mutants (row empty / shorter / longer / deeper / shallower / replaced by a scalar / non-empty among empty, first / middle / "
+        "last row of every depth) x sink (let, var, discarded, passed, returned, indexed, assigned, record field, comprehension "
+        "element) x element kind; arrays of arrays with rows of different lengths are accepted controls")
+
+
 def run_corpus(ctx, drv):
     cases = []
     meta = {}
@@ -1165,6 +1792,8 @@ def run(ctx):
     ctx.notes["text_families_s"] = round(time.time() - t0, 1)
     run_context_family(ctx, drv, quick)
     ctx.notes["context_family_s"] = round(time.time() - t0, 1)
+    run_round3_families(ctx, drv, quick)
+    ctx.notes["alias_call_array_families_s"] = round(time.time() - t0, 1)
     nprog, kcap, nmatch = (320, 2, 120) if quick else (1600, 3, 500)
     cases_path = os.path.join(ctx.outdir, "cases.jsonl")
     rc, so, se = common.sh([RUN, "gen", str(ctx.seed), str(nprog), str(kcap), str(nmatch), cases_path], timeout=900)
